@@ -10,6 +10,7 @@ package main
 
 import (
 	"bufio"
+	"encoding/binary"
 	"fmt"
 	"math"
 	"math/rand"
@@ -44,11 +45,28 @@ func (i *inst) String() string {
 
 // buildFetch renders a fetch response with a record set of the given physical layout; readN as in connfake.Shape.
 func buildFetch(r *rand.Rand, v int16, magic int8, n, batches int, codec protocol.Attributes, readN int) *inst {
+	return buildFetchTrunc(r, v, magic, n, batches, codec, readN, 0)
+}
+
+// buildFetchTrunc: the set is truncated by `trunc` bytes INSIDE an honest frame (what a broker does at MaxBytes): the
+// records handed out must be a prefix of the stored ones (checked by the fetch op's digest), the Conn stays aligned.
+func buildFetchTrunc(r *rand.Rand, v int16, magic int8, n, batches int, codec protocol.Attributes, readN, trunc int) *inst {
 	op := connfake.OpByName("fetch")
 	sh := &connfake.Shape{Topic: topic, Offset: int64(r.Intn(50)), ReadN: readN}
 	set, msgs, base, err := connfake.RecordSet(r, magic, sh.Offset, n, batches, codec)
 	if err != nil {
 		panic(err)
+	}
+	if trunc > 0 && len(set) > 12 {
+		// never into the first batch / message (offset 8 bytes, length 4 bytes, then `length` bytes): a broker returns
+		// at least one complete one; a set shorter than that is answered with io.ErrUnexpectedEOF and a closed Conn
+		first := 12 + int(binary.BigEndian.Uint32(set[8:12]))
+		if trunc > len(set)-first {
+			trunc = len(set) - first
+		}
+		if trunc > 0 {
+			set = set[:len(set)-trunc]
+		}
 	}
 	sh.Offset, sh.Set, sh.Want, sh.HWM = base, set, msgs, base+int64(n)
 	w := &connfake.W{}
@@ -143,6 +161,13 @@ func scenario(a, b *inst) (line string, slow bool) {
 	sel[a.op.Key] = a.v
 	t0 := time.Now()
 	c, br := connfake.Start(topic, connfake.VersionTable(sel))
+	if b.op.Name == "apiVersions" && a.op.Name != "apiVersions" {
+		// responses are scripted per api key: A's version negotiation would take the ApiVersions response meant for
+		// B.  Run A's operation once before (negotiation included), then script.
+		w, _ := build(rand.New(rand.NewSource(1)), a.op, a.v, nil, false)
+		br.Push(a.op.Key, connfake.Resp{Body: w.body, Cut: -1})
+		guarded(c, w)
+	}
 	br.Push(a.op.Key, connfake.Resp{Body: a.body, Cut: -1})
 	br.Push(b.op.Key, connfake.Resp{Body: b.body, Cut: -1})
 	resA, _ := guarded(c, a)
@@ -537,6 +562,68 @@ func main() {
 					a.sh.Via = via
 					emit(a, follower(a))
 				}
+			}
+		}
+	}
+	// sets too short for one message / batch header (and just long enough): io.ErrUnexpectedEOF and a closed Conn below
+	// the header size of the format, the usual early end of the batch from there on
+	for _, v := range connfake.OpByName("fetch").Versions {
+		for _, magic := range []int8{1, 2} {
+			if magic == 2 && v < 4 {
+				continue
+			}
+			for _, keep := range []int{1, 12, 16, 17, 25, 26, 27, 60, 61, 62} {
+				a := buildFetch(r, v, magic, 3, 1, 0, 0)
+				if keep >= len(a.sh.Set) {
+					continue
+				}
+				a.sh.Set = a.sh.Set[:keep]
+				w := &connfake.W{}
+				a.op.Build(v, w, r, a.sh)
+				a.body = w.B
+				emit(a, follower(a))
+			}
+			// an unknown magic byte in the first entry: refused (a framing error: A and the follow-up fail)
+			a := buildFetch(r, v, magic, 3, 1, 0, 0)
+			a.sh.Set = append([]byte{}, a.sh.Set...)
+			a.sh.Set[16] = byte(3 + r.Intn(200))
+			w := &connfake.W{}
+			a.op.Build(v, w, r, a.sh)
+			a.body = w.B
+			emit(a, follower(a))
+		}
+	}
+	// ApiVersions as the follow-up operation (inside the main theorems since C11-D33): after every operation, with
+	// and without a broker-reported error in the first response
+	av := connfake.OpByName("apiVersions")
+	for _, op := range connfake.Ops {
+		if op.Name == "apiVersions" {
+			continue
+		}
+		for _, v := range op.Versions {
+			var errs []int16
+			if r.Intn(2) == 0 {
+				errs = []int16{codes[r.Intn(len(codes))]}
+			}
+			a, _ := build(r, op, v, errs, false)
+			var berrs []int16
+			if r.Intn(3) == 0 {
+				berrs = []int16{codes[r.Intn(len(codes))]}
+			}
+			b, _ := build(r, av, 0, berrs, false)
+			emit(a, b)
+		}
+	}
+	// a set truncated inside an honest frame (MaxBytes): the batch ends early (io.EOF after a prefix of the records, or
+	// an error when not even one complete record is there), the Conn stays aligned
+	for _, v := range connfake.OpByName("fetch").Versions {
+		for _, magic := range []int8{1, 2} {
+			if magic == 2 && v < 4 {
+				continue
+			}
+			for _, trunc := range []int{1, 7, 20, 40, 70, 1000} {
+				a := buildFetchTrunc(r, v, magic, 5, 2, 0, 0, trunc)
+				emit(a, follower(a))
 			}
 		}
 	}
